@@ -5,7 +5,7 @@ from fractions import Fraction
 
 from .. import tables, unitgrammar
 from ..convmodel import ConvModel
-from ..report import AnalysisError
+from ..report import borrow, AnalysisError
 
 PROP = "C06"
 EXHAUSTIVE = True
@@ -31,6 +31,12 @@ def run(rep, ctx):
     st = State(ctx)
     rep.run_rule("C06.R1", "compound rows: factor == product of component factors, up to one ratio per quantity type (exhaustive, dimension-gated)", r1_compound, st)
     rep.run_rule("C06.R2", "SI-prefixed atomic rows (by symbol and name): factor ratio == 10^n (exhaustive)", r2_prefixed, st)
+    from . import c02
+    rep.rule("C06.R3", "an amount given in a derived unit (product of table units with exponents) is re-expressed with each unit ratio raised to its signed exponent (shared with C02.R1: _ConvertWithExp)")
+    try:
+        borrow(rep, c02.r1_agreement, ctx, "C02.R1", "C06.R3", keep=lambda o: o.key.startswith("_ConvertWithExp"))
+    except AnalysisError as e:
+        rep.error("C06.R3", str(e))
     rep.not_decided += [
         "symbols outside the grammar (two or more slashes, '^', '*', parentheses) and rows whose decomposition is not dimensionally coherent (listed in coverage.set_aside)",
         "atomic rows that are neither compound nor SI-prefixed forms of another row (nothing in the table to compare them with)",
